@@ -492,11 +492,24 @@ def netlocMatch (s : Str) : Option (Str × Str) :=
     | none => none
     | some (h, ds) => if !h.isEmpty && !ds.isEmpty && ds.all isNd then some (h, ds) else none
 
-/-- `split_host_and_port` (after the `fix:` commit for D10) -/
-def splitHostPort (s : Str) : Str × Option Nat :=
+/-- `int(s)` as `split_host_and_port` calls it.  For text made of `\d` characters only (what group 2 of `_netloc_re` is):
+    ValueError beyond `sys.get_int_max_str_digits()` digits, else the decimal value (every `Nd` character has a decimal
+    value — compared with `int(chr(c))` for the whole table on every run, case `tables`).  Any other text (sign, blanks,
+    underscores, non-digits: `int` would accept some and raise ValueError for others) is outside the model. -/
+def pyInt (s : Str) : Except Err Nat :=
+  if s.isEmpty || !s.all isNd then .error .unmodelled
+  else if s.length > intMaxDigits then .error (.uncaught "ValueError")
+  else .ok (ndInt s)
+
+/-- `split_host_and_port` (after the `fix:` commit for D10): `try: port = int(group 2); host = group 1` /
+    `except ValueError: pass`.  Only a ValueError of `int` is caught; any other failure of the call escapes. -/
+def splitHostPort (s : Str) : Except Err (Str × Option Nat) :=
   match netlocMatch s with
-  | some (h, ds) => if ds.length > intMaxDigits then (s, none) else (h, some (ndInt ds))
-  | none => (s, none)
+  | some (h, ds) =>
+    match pyInt ds with
+    | .ok n => .ok (h, some n)
+    | .error e => if e = .uncaught "ValueError" then .ok (s, none) else .error e
+  | none => .ok (s, none)
 
 /-- `split_host_and_port` as it was before the fix (kept for the refutation of the unfixed code) -/
 def splitHostPortOld (s : Str) : Except Err (Str × Option Nat) :=
